@@ -99,6 +99,9 @@ func init() {
 				{Name: "get", Pkg: "internal/outputstream", PkgName: "outputstream", Files: []string{"outputstream/c08.go"},
 					SymFiles: []string{"outputstream/c08_sym.go"}, NatFiles: []string{"outputstream/c08_native.go"}, APIs: []string{"ldb"},
 					Entry: "verifHarness_C08_get", Params: p, Unwind: 8, Panics: true, Stubs: stubs},
+				{Name: "delete", Pkg: "internal/outputstream", PkgName: "outputstream", Files: []string{"outputstream/c08.go"},
+					SymFiles: []string{"outputstream/c08_sym.go"}, NatFiles: []string{"outputstream/c08_native.go"}, APIs: []string{"ldb"},
+					Entry: "verifHarness_C08_delete", Params: p, Unwind: 8, Panics: true, Stubs: stubs, NoReplay: true},
 			}
 		},
 		Assumptions: []string{
@@ -133,6 +136,10 @@ func init() {
 					NativePatches: markNativePatches},
 				{Name: "replay", Pkg: "internal/ircserver", PkgName: "ircserver", Files: ircFiles, SymFiles: ircSym, NatFiles: ircNat,
 					Entry: "verifHarness_C07_replay", Params: tp, Unwind: 8, Solver: "z3-new"},
+				{Name: "apply-log-copy", Pkg: "", PkgName: "main", Files: []string{"main/c07.go"}, SymFiles: []string{"main/tmp_sym.go"}, NatFiles: []string{"main/tmp_native.go"},
+					Entry: "verifHarness_C07_apply", Unwind: 8,
+					Redirect:      map[string]string{"(*" + repoMod + ".FSM).applyRobustMessage": "verifStub_applyRobustMessage"},
+					NativePatches: markNativePatches},
 				{Name: "snapshot", Pkg: "", PkgName: "main", Files: []string{"main/c02.go", "main/c07.go", "main/c16.go"}, SymFiles: []string{"main/tmp_sym.go"}, NatFiles: []string{"main/tmp_native.go"},
 					Entry: "verifHarness_C07_snapshot", Params: map[string]int{"entries": 2}, Unwind: 10, NoReplay: true,
 					Redirect: map[string]string{
@@ -258,6 +265,17 @@ func init() {
 
 // ircStepRuns: the one-step exploration of the IRC state machine for all
 // roles (unregistered, client, operator, services link) and all commands.
+// indexes into the harness table vNamedCmds (harness/ircserver/step.go)
+const (
+	cmdMODE = 1 + iota
+	cmdNICK
+	cmdPING
+	cmdJOIN
+	cmdQUIT
+	cmdKILL
+	cmdPART
+)
+
 func ircStepRuns(entry, tier string, panics bool, extra ...interface{}) []HarnessRun {
 	base := map[string]int{"S": 2, "C": 1, "L": 4, "K": 3, "P": 1, "modelen": 2, "commas": 1}
 	if tier == "thorough" {
@@ -272,13 +290,17 @@ func ircStepRuns(entry, tier string, panics bool, extra ...interface{}) []Harnes
 		runs = append(runs, run)
 	}
 	// services NICK introduces a pseudo-client with at least four parameters
-	nick := ircRun("services-nick", entry, mergeParams(base, "role", 3, "cmd", 5, "K", 4))
+	nick := ircRun("services-nick", entry, mergeParams(base, "role", 3, "cmdname", cmdNICK, "K", 4))
 	nick.Panics = panics
 	runs = append(runs, nick)
 	// the remote address of the message differs from the stored one (ban check on address change)
-	addr := ircRun("address-change", entry, mergeParams(base, "role", 1, "cmd", 29, "addr", 1))
+	addr := ircRun("address-change", entry, mergeParams(base, "role", 1, "cmdname", cmdPING, "addr", 1))
 	addr.Panics = panics
 	runs = append(runs, addr)
+	// compound mode strings ("+b" query followed by one more change) are longer than the general bound on mode strings
+	mode := ircRun("client-mode-compound", entry, mergeParams(base, "role", 1, "cmdname", cmdMODE, "K", 2, "modelen", 4, "modeprefix", 1))
+	mode.Panics = panics
+	runs = append(runs, mode)
 	return runs
 }
 
@@ -327,7 +349,7 @@ func init() {
 	registerCheck(&CheckDef{
 		ID: "C14",
 		Runs: func(tier string) []HarnessRun { return ircStepRuns("verifHarness_C14_step", tier, false) },
-		Assumptions: append(append([]string{}, ircAssumptions...), "SVSNICK only onto free nicknames; services NICK introduces syntactically valid, free nicknames (preconditions from the property text)"),
+		Assumptions: ircAssumptions,
 		Bounds: ircBounds, Outside: ircOutside, Functions: ircFunctions,
 		Rule: "one case per (role, command, parameter count); non-trivial when the invariant obligations are reached",
 	})
@@ -338,8 +360,8 @@ func init() {
 			if tier != "thorough" {
 				// recipients of services JOIN/PART need two channels to differ
 				base := map[string]int{"S": 2, "C": 2, "L": 3, "K": 2, "P": 1, "role": 3}
-				runs = append(runs, ircRun("services-join-2chan", "verifHarness_C12_step", mergeParams(base, "cmd", 1)))
-				runs = append(runs, ircRun("services-part-2chan", "verifHarness_C12_step", mergeParams(base, "cmd", 7)))
+				runs = append(runs, ircRun("services-join-2chan", "verifHarness_C12_step", mergeParams(base, "cmdname", cmdJOIN)))
+				runs = append(runs, ircRun("services-part-2chan", "verifHarness_C12_step", mergeParams(base, "cmdname", cmdPART)))
 			}
 			return runs
 		},
@@ -518,8 +540,8 @@ func init() {
 			for _, c := range []struct {
 				name string
 				cmd  int
-			}{{"services-quit-2pseudo", 10}, {"services-kill-2pseudo", 3}} {
-				runs = append(runs, ircRun(c.name, "verifHarness_C01_step", mergeParams(runs[3].Params, "P", 2, "cmd", c.cmd)))
+			}{{"services-quit-2pseudo", cmdQUIT}, {"services-kill-2pseudo", cmdKILL}} {
+				runs = append(runs, ircRun(c.name, "verifHarness_C01_step", mergeParams(runs[3].Params, "P", 2, "cmdname", c.cmd)))
 			}
 			for k := range runs {
 				runs[k].Permute = 5
